@@ -110,9 +110,12 @@ class Schema:
         return out
 
 
-def walk():
+def walk(roots=None):
     """introspect the bacpypes that `import bacpypes` resolves to (the caller
-    arranges sys.path); returns a Schema with live classes attached"""
+    arranges sys.path); returns a Schema with live classes attached.
+    roots=None: every constructed class of basetypes / apdu, every factory class
+    and the registries; otherwise only the given classes and what they refer to
+    (used by the harness for synthetic schemas)"""
     import bacpypes  # noqa: F401  (imports every submodule, so every factory class exists)
     from bacpypes import constructeddata as cd, basetypes as bt, apdu, primitivedata as pd
 
@@ -226,17 +229,19 @@ def walk():
         return n
 
     # roots: every constructed class defined in basetypes / apdu, every factory class, Any
-    roots = []
-    for mod in (bt, apdu):
+    explicit = roots is not None
+    roots = list(roots) if explicit else []
+    for mod in (() if explicit else (bt, apdu)):
         for name, o in sorted(vars(mod).items()):
             if inspect.isclass(o) and o.__module__ == mod.__name__ and o not in abstract \
                     and issubclass(o, (cd.Sequence, cd.Choice)):
                 roots.append(o)
-    for reg in (cd._sequence_of_classes, cd._list_of_classes, cd._array_of_classes):
-        roots.extend(sorted(reg, key=lambda c: key_of(c)))
-    roots.extend([cd.Any, cd.SequenceOfAny])
-    for r in REGISTRIES:
-        roots.extend(c for _, c in sorted(getattr(apdu, r).items()))
+    if not explicit:
+        for reg in (cd._sequence_of_classes, cd._list_of_classes, cd._array_of_classes):
+            roots.extend(sorted(reg, key=lambda c: key_of(c)))
+        roots.extend([cd.Any, cd.SequenceOfAny])
+        for r in REGISTRIES:
+            roots.extend(c for _, c in sorted(getattr(apdu, r).items()))
     for c in roots:
         node_of(c)
 
@@ -265,7 +270,7 @@ def walk():
         names[n.name] = n
 
     # registries
-    for r in REGISTRIES:
+    for r in (() if explicit else REGISTRIES):
         lst = []
         base = getattr(apdu, REG_BASE[r])
         for choice, cls in sorted(getattr(apdu, r).items()):
